@@ -12,5 +12,5 @@ Definition filt (k : nat) (d : list N) : list N :=
 Definition run_interact (c : option N * nat * nat * list N * list iev) : V :=
   match c with (esc, fi, fo, pending, evs) =>
     let r := interact esc (filt fi) (filt fo) pending evs in
-    VL [vtext (to_stdout r); vtext (to_child r); vbool (escaped r); vbool (child_eof r); vbool (mode_restored r)]
+    VL [vtext (to_stdout r); vtext (to_child r); vbool (mode_restored r)]
   end.
